@@ -31,6 +31,11 @@ class ToolTrouble(Exception):
 
 
 # --------------------------------------------------------------------------- vx
+class OutOfReach(ToolTrouble):
+    """The current source of a function under contract is outside what the extractor / Verus accept."""
+    pass
+
+
 def run_vx(items):
     os.makedirs(OUT, exist_ok=True)
     job = {"repo": REPO, "items": items}
@@ -47,7 +52,7 @@ def run_vx(items):
     out = {}
     for r in res:
         if not r["ok"]:
-            raise ToolTrouble(f"extraction of `{r['key']}` from {r['file']} failed: {r['error']}")
+            raise OutOfReach(f"extraction of `{r['key']}` from {r['file']} failed: {r['error']}")
         out[r["key"]] = r
     return out
 
